@@ -10,7 +10,7 @@
 (***************************************************************************)
 EXTENDS ObsCore, Json, IOUtils
 
-Names == {"A|1", "A|2", "B|1", "A"}
+Names == {"A|1", "A|2", "B|1", "A", "AB|1"}        \* "AB" and "A" are different ensembles although one name is a prefix of the other
 Idls  == {<<1, 2, 3, 4, 5>>, <<1, 3, 5, 7, 9>>, <<1, 2, 4, 5, 7>>, <<2, 4, 6, 8, 10, 12>>,
           <<1, 2, 2, 4, 5>>, <<1, 3, 2, 4, 5>>, <<1, 2, 3, 4>>, <<3, 6, 7, 9, 12, 15>>}
 ChainReqs == {[name |-> n, idl |-> i, nx |-> k] : n \in Names, i \in Idls, k \in {4, 5, 6}}
